@@ -10,11 +10,374 @@ the model: live callbacks have pairwise distinct addresses at every moment, and 
 exactly its own function with its own signature (exact result value).
 """
 import json
+import os
+import re
 
 from lib import vlib
+from lib.py2coq import Untranslatable
 from lib.vlib import cn, cz, clist, cpair
 
 ID = "C29"
+
+
+
+# ---------------------------------------------------------------- regeneration of coq/C29/Gen.v
+# The allocation arithmetic of more_core() (src/c/malloc_closure.h) is re-read from the source text on
+# every run: the assignments to allocate_num_pages and count, conditional re-assignments, the size
+# given to mmap() and the bound of the loop that threads items onto the free list, in program order
+# (POSIX branch of the #ifdefs).  Anything about these variables that is not in the small statement
+# language of coq/C29/Prog.v makes the translation fail closed (snapshot + correspondence only).
+
+GEN = os.path.join(vlib.COQ, "C29", "Gen.v")
+RELEVANT = ("allocate_num_pages", "count")
+TOKEN = re.compile(r"\s*(?:(\d+\.\d*(?:[eE][-+]?\d+)?|\.\d+|\d+[uUlL]*)|([A-Za-z_]\w*)|(->|\+\+|--|<=|>=|==|!=|&&|\|\||&=|\|=|[-+*/%<>=!&|~^(){};,\[\]?:.]))")
+
+
+def _fail(msg):
+    raise Untranslatable("more_core(): " + msg)
+
+
+def _strip_comments(text):
+    text = re.sub(r"/\*.*?\*/", " ", text, flags=re.S)
+    return re.sub(r"//[^\n]*", " ", text)
+
+
+def _function_body(text, header):
+    i = text.find(header)
+    if i < 0 or text.find(header, i + 1) >= 0:
+        _fail("header %r not found exactly once" % header)
+    j = text.index("{", i)
+    depth, k = 0, j
+    while k < len(text):
+        if text[k] == "{":
+            depth += 1
+        elif text[k] == "}":
+            depth -= 1
+            if depth == 0:
+                return text[j + 1:k]
+        k += 1
+    _fail("unbalanced braces")
+
+
+def _preprocess(body, defined):
+    out, stack = [], []
+    for line in body.split("\n"):
+        t = line.strip()
+        if t.startswith("#"):
+            m = re.match(r"#\s*(ifdef|ifndef|else|endif)\b\s*(\w*)", t)
+            if not m:
+                _fail("unsupported preprocessor line %r" % t)
+            d, name = m.groups()
+            if d == "ifdef":
+                stack.append(name in defined)
+            elif d == "ifndef":
+                stack.append(name not in defined)
+            elif d == "else":
+                if not stack:
+                    _fail("#else without #if")
+                stack[-1] = not stack[-1]
+            else:
+                if not stack:
+                    _fail("#endif without #if")
+                stack.pop()
+            continue
+        if all(stack):
+            out.append(line)
+    if stack:
+        _fail("unterminated #if")
+    return "\n".join(out)
+
+
+def _tokens(text):
+    pos, out = 0, []
+    text = text.rstrip()
+    while pos < len(text):
+        m = TOKEN.match(text, pos)
+        if not m:
+            if text[pos:].strip() == "":
+                break
+            _fail("cannot tokenize near %r" % text[pos:pos + 30])
+        out.append(m.group(1) or m.group(2) or m.group(3))
+        pos = m.end()
+    return out
+
+
+class _Stmts:
+    """flat statement list: ('expr', toks) | ('if', cond_toks, [stmts]) | ('for', header_toks, [stmts]) | ('return',)"""
+
+    def __init__(self, toks):
+        self.t, self.i = toks, 0
+
+    def peek(self):
+        return self.t[self.i] if self.i < len(self.t) else None
+
+    def take(self, want=None):
+        if self.i >= len(self.t) or (want is not None and self.t[self.i] != want):
+            _fail("expected %r at token %d" % (want, self.i))
+        self.i += 1
+        return self.t[self.i - 1]
+
+    def parens(self):
+        self.take("(")
+        depth, out = 1, []
+        while depth:
+            x = self.take()
+            if x == "(":
+                depth += 1
+            elif x == ")":
+                depth -= 1
+                if depth == 0:
+                    break
+            out.append(x)
+        return out
+
+    def stmt(self):
+        x = self.peek()
+        if x == "{":
+            self.take()
+            out = []
+            while self.peek() != "}":
+                out += self.stmt()
+            self.take("}")
+            return out
+        if x == "if":
+            self.take()
+            cond = self.parens()
+            body = self.stmt()
+            if self.peek() == "else":
+                _fail("'else' is outside the translated subset")
+            return [("if", cond, body)]
+        if x == "for":
+            self.take()
+            return [("for", self.parens(), self.stmt())]
+        if x in ("while", "do", "switch", "goto"):
+            _fail("%r is outside the translated subset" % x)
+        if x == "return":
+            self.take()
+            self.take(";")
+            return [("return",)]
+        out = []
+        while self.peek() != ";":
+            if self.peek() is None:
+                _fail("missing ';'")
+            out.append(self.take())
+        self.take(";")
+        return [("expr", out)] if out else []
+
+    def all(self):
+        out = []
+        while self.peek() is not None:
+            out += self.stmt()
+        return out
+
+
+class _Expr:
+    def __init__(self, toks, macros):
+        self.t, self.i, self.macros = toks, 0, macros
+
+    def peek(self):
+        return self.t[self.i] if self.i < len(self.t) else None
+
+    def take(self, want=None):
+        if self.i >= len(self.t) or (want is not None and self.t[self.i] != want):
+            _fail("expression: expected %r in %r" % (want, " ".join(self.t)))
+        self.i += 1
+        return self.t[self.i - 1]
+
+    def parse(self):
+        e = self.add()
+        if self.peek() is not None:
+            _fail("expression: trailing tokens in %r" % " ".join(self.t))
+        return e
+
+    def add(self):
+        e = self.mul()
+        while self.peek() in ("+", "-"):
+            op = self.take()
+            e = ("add" if op == "+" else "sub", e, self.mul())
+        return e
+
+    def mul(self):
+        e = self.unary()
+        while self.peek() in ("*", "/"):
+            op = self.take()
+            e = ("mul" if op == "*" else "div", e, self.unary())
+        return e
+
+    def unary(self):
+        x = self.peek()
+        if x == "(":
+            # cast or parenthesised expression
+            if self.i + 2 < len(self.t) and self.t[self.i + 1] in ("Py_ssize_t", "size_t", "long", "ssize_t") \
+                    and self.t[self.i + 2] == ")":
+                self.i += 3
+                return ("cast", self.unary())
+            self.take("(")
+            e = self.add()
+            self.take(")")
+            return e
+        if x == "sizeof":
+            self.take()
+            inner = []
+            self.take("(")
+            while self.peek() != ")":
+                inner.append(self.take())
+            self.take(")")
+            if inner != ["union", "mmapped_block"]:
+                _fail("sizeof(%s)" % " ".join(inner))
+            return ("sizeof",)
+        x = self.take()
+        if re.fullmatch(r"\d+[uUlL]*", x):
+            return ("int", int(re.sub(r"[uUlL]", "", x)))
+        if re.fullmatch(r"\d+\.\d*|\.\d+", x):
+            whole, _, frac = x.partition(".")
+            return ("float", int((whole or "0") + frac), 10 ** len(frac))
+        if x == "allocate_num_pages":
+            return ("var", "VPages")
+        if x == "count":
+            return ("var", "VCount")
+        if x == "_pagesize":
+            return ("pagesize",)
+        if x in self.macros:
+            return _Expr(self.macros[x], self.macros).parse()
+        _fail("unknown name %r in an expression" % x)
+
+
+def _gallina(e):
+    k = e[0]
+    if k == "int":
+        return "(EInt %d)" % e[1]
+    if k == "var":
+        return "(EV %s)" % e[1]
+    if k == "pagesize":
+        return "EPagesize"
+    if k == "sizeof":
+        return "ESizeofBlock"
+    if k == "cast":
+        inner = e[1]
+        if inner[0] == "mul" and (inner[1][0] == "float") != (inner[2][0] == "float"):
+            f, other = (inner[1], inner[2]) if inner[1][0] == "float" else (inner[2], inner[1])
+            return "(ETruncMulRat %s %d %d)" % (_gallina(other), f[1], f[2])
+        return _gallina(inner)          # integer cast of a non-negative integer expression
+    if k == "float":
+        _fail("a floating-point literal outside '(Py_ssize_t)(expr * literal)'")
+    return "(E%s %s %s)" % (k.capitalize(), _gallina(e[1]), _gallina(e[2]))
+
+
+CMP = {">": "CGt", ">=": "CGe", "<": "CLt", "<=": "CLe"}
+THREAD_BODY = ["item", "->", "next", "=", "free_list", ";", "free_list", "=", "item", ";", "++", "item", ";"]
+
+
+def _mentions(stmt, names):
+    if stmt[0] == "expr":
+        return any(t in names for t in stmt[1])
+    if stmt[0] in ("if", "for"):
+        return any(t in names for t in stmt[1]) or any(_mentions(s, names) for s in stmt[2])
+    return False
+
+
+def _flatten_toks(stmts):
+    out = []
+    for s in stmts:
+        if s[0] == "expr":
+            out += s[1] + [";"]
+        else:
+            _fail("nested control flow in a loop body")
+    return out
+
+
+def translate_more_core(repo):
+    path = os.path.join(repo, "src", "c", "malloc_closure.h")
+    try:
+        text = _strip_comments(open(path).read())
+    except OSError as e:
+        _fail(str(e))
+    macros = {}
+    for m in re.finditer(r"(?m)^[ \t]*#[ \t]*define[ \t]+(\w+)[ \t]+([^\n]+)$", text):
+        try:
+            macros[m.group(1)] = _tokens(m.group(2).strip())
+        except Untranslatable:
+            pass
+    body = _preprocess(_function_body(text, "static void more_core(void)"), {"_SC_PAGESIZE", "__linux__"})
+    stmts = _Stmts(_tokens(body)).all()
+    prog, seen_relevant = [], False
+
+    def assign(toks):
+        if len(toks) >= 3 and toks[0] in RELEVANT and toks[1] == "=":
+            return ("VPages" if toks[0] == "allocate_num_pages" else "VCount",
+                    _gallina(_Expr(toks[2:], macros).parse()))
+        return None
+
+    def walk(stmts):
+        nonlocal seen_relevant
+        for s in stmts:
+            if s[0] == "expr":
+                toks = s[1]
+                if "mmap" in toks:
+                    k = toks.index("mmap")
+                    args = _Stmts(toks[k + 1:]).parens()
+                    depth, cur, parts = 0, [], []
+                    for t in args:
+                        if t == "," and depth == 0:
+                            parts.append(cur)
+                            cur = []
+                            continue
+                        depth += t == "("
+                        depth -= t == ")"
+                        cur.append(t)
+                    parts.append(cur)
+                    if len(parts) != 6 or toks[0] != "item" or toks[1] != "=":
+                        _fail("unexpected form of the mmap() call")
+                    prog.append("SMmap %s" % _gallina(_Expr(parts[1], macros).parse()))
+                    seen_relevant = True
+                elif any(t in RELEVANT for t in toks):
+                    if toks[0] in ("Py_ssize_t", "size_t", "long", "int", "ssize_t") and "=" not in toks:
+                        continue            # plain declaration without initializer
+                    a = assign(toks)
+                    if a is None:
+                        _fail("statement about %s outside the subset: %r" % ("/".join(RELEVANT), " ".join(toks)))
+                    prog.append("SAssign %s %s" % a)
+                    seen_relevant = True
+                elif "_pagesize" in toks and "=" in toks and seen_relevant:
+                    _fail("_pagesize assigned after it was used")
+            elif s[0] == "if":
+                if not _mentions(s, RELEVANT + ("mmap",)):
+                    if seen_relevant and _mentions(s, ("_pagesize",)) and any(
+                            x[0] == "expr" and "=" in x[1] and "_pagesize" in x[1] for x in s[2]):
+                        _fail("_pagesize assigned after it was used")
+                    continue
+                cond, inner = s[1], s[2]
+                ops = [t for t in cond if t in CMP]
+                if len(ops) != 1 or len(inner) != 1 or inner[0][0] != "expr" or assign(inner[0][1]) is None:
+                    _fail("conditional about %s outside the subset" % "/".join(RELEVANT))
+                k = cond.index(ops[0])
+                v, e = assign(inner[0][1])
+                prog.append("SIf %s %s %s %s %s" % (CMP[ops[0]], _gallina(_Expr(cond[:k], macros).parse()),
+                                                    _gallina(_Expr(cond[k + 1:], macros).parse()), v, e))
+                seen_relevant = True
+            elif s[0] == "for":
+                h = s[1]
+                if h[:4] != ["i", "=", "0", ";"] or h[4:6] != ["i", "<"] or h[-3:] != [";", "++", "i"]:
+                    _fail("unexpected loop header %r" % " ".join(h))
+                if _flatten_toks(s[2]) != THREAD_BODY:
+                    _fail("unexpected loop body")
+                prog.append("SThread %s" % _gallina(_Expr(h[6:-3], macros).parse()))
+                seen_relevant = True
+            elif s[0] == "return" and seen_relevant:
+                _fail("unconditional return after the arithmetic started")
+    walk(stmts)
+    if sum(p.startswith("SMmap") for p in prog) != 1 or sum(p.startswith("SThread") for p in prog) != 1:
+        _fail("expected exactly one mmap() and one threading loop, got %r" % prog)
+    return ("(* REGENERATED on every run from more_core() in src/c/malloc_closure.h by tools/props/c29.py\n"
+            "   (translate_more_core); the committed copy is Gen.v.snapshot.  Do not edit. *)\n"
+            "From Coq Require Import ZArith List.\nImport ListNotations.\n"
+            "From Cffi Require Import C29.Prog.\nOpen Scope Z_scope.\n\n"
+            "Definition more_core_prog : list stmt :=\n  [ %s ].\n" % ";\n    ".join(prog))
+
+
+def regen(ctx):
+    from props import c35
+    c35.regen_file(ctx, GEN, translate_more_core)
 
 
 class Gen:
